@@ -316,7 +316,8 @@ def ptr(off: int) -> bytes:
 def gen_compression_graph(rng: random.Random) -> Tuple[bytes, str]:
     """Adversarial pointer arrangements.  Layout: header, then a question or record whose name starts a walk."""
     shape = rng.choice(["chain", "chain", "chain-labels", "cycle", "self", "forward", "into-rdata", "into-header", "to-end",
-                        "fan-in", "fan-in-empty", "deep-then-long", "label-bomb", "two-cycles", "chain-fwd", "chain-fwd", "zigzag"])
+                        "fan-in", "fan-in-empty", "deep-then-long", "label-bomb", "two-cycles", "chain-fwd", "chain-fwd", "zigzag",
+                        "long-then-ref", "long-then-ref"])
     body = bytearray()
     base = 12
 
@@ -432,6 +433,52 @@ def gen_compression_graph(rng: random.Random) -> Tuple[bytes, str]:
             prev = o
         recs = (ptr(prev) + struct.pack(">HHIH", 99, 1, 120, 0)) * n
         return header(an=n) + recs + bytes(body), "%s-%dx%d" % (shape, k, n)
+    if shape == "long-then-ref":
+        # a name of about 254 characters or more is first met where the failure is survivable (rdata of a record with a known
+        # rdlength, directly or through a pointer to labels hidden in TXT rdata); later names are bare pointers to it or into it
+        total = rng.choice([250, 252, 253, 254, 255, 256, 300, 400])
+        labels: List[bytes] = []
+        left = total - 1                       # text length = sum(len)+count ; ends with '.'
+        while left > 0:
+            n = min(left - 1, rng.choice([63, 63, 40, 17, 1])) if left > 1 else 0
+            if n <= 0:
+                break
+            labels.append(bytes(rng.choice(b"abcxyz") for _ in range(n)))
+            left -= n + 1
+        enc = b"".join(bytes([len(l)]) + l for l in labels) + b"\0"
+        hidden = rng.random() < 0.5
+        recs = bytearray()
+        if hidden:
+            # TXT record whose rdata is the label chain (a TXT decoder never looks inside)
+            owner = b"\x01t\0"
+            recs += owner + struct.pack(">HHIH", 16, 1, 120, len(enc))
+            x = here() + len(recs)
+            recs += enc
+            first = owner_a = b"\x01a\0"
+            rd = ptr(x)
+            recs += owner_a + struct.pack(">HHIH", rng.choice([12, 5]), 1, 120, len(rd)) + rd
+            n_rec = 2
+        else:
+            owner_a = b"\x01a\0"
+            recs += owner_a + struct.pack(">HHIH", rng.choice([12, 5, 33]), 1, 120, 0)
+            kind = struct.unpack(">H", recs[-10:-8])[0]
+            pre = struct.pack(">HHH", 0, 0, 80) if kind == 33 else b""
+            x = here() + len(recs) + len(pre)
+            rd = pre + enc
+            recs[-2:] = struct.pack(">H", len(rd))
+            recs += rd
+            n_rec = 1
+        # followers: owner names / rdata names that are nothing but a pointer to x (or to a later label inside the chain)
+        for _ in range(rng.choice([1, 2, 3])):
+            into = x
+            if rng.random() < 0.3 and len(labels) > 1:
+                into = x + len(labels[0]) + 1
+            if rng.random() < 0.5:
+                recs += ptr(into) + struct.pack(">HHIH", 1, 1, 120, 4) + b"\x0a\0\0\x01"
+            else:
+                recs += b"\x01b\0" + struct.pack(">HHIH", 12, 1, 120, 2) + ptr(into)
+            n_rec += 1
+        return header(flags=0x8400, an=n_rec) + bytes(recs), "%s-%d%s" % (shape, total, "-hidden" if hidden else "")
     if shape == "label-bomb":
         # many 1-byte labels then pointer back to the start region repeatedly (label count / name length guards)
         start = here()
